@@ -315,7 +315,14 @@ let s_keygen g obs =
     else "ok" in
   (model, verdict)
 
+(* ---- forced schedules (C03, C05, C07, C09) ---- *)
+let s_sched which g obs =
+  if obs = "HUNG" then ("?", "bad:sched-hung") else
+  let (model, pre, _post, eui) = Hist.run_sched g obs in
+  (model, Judge.judge_sched which g obs pre eui)
+
 let register_all register =
+  List.iter (fun c -> register ("sched" ^ c) (s_sched c)) ["C03"; "C05"; "C07"; "C09"];
   register "keygen" s_keygen;
   register "registry" Regsuite.s_registry;
   register "codec" Regsuite.s_codec;
